@@ -128,6 +128,11 @@ def step (st : St) : List String → Option (St × String)
   | ["parse", h] => do
     let txt ← hexText h
     pure (st, parseAnswer st txt false)
+  | ["parsev", h] => do
+    let txt ← hexText h
+    pure (st, match parseValue st.env txt with
+      | .ok _ => "ok"
+      | .error e => if e.kind == .undecided then "skip" else "err")
   | ["perr", h] => do
     let txt ← hexText h
     pure (st, parseAnswer st txt true)
